@@ -27,7 +27,8 @@ PathTemplates ==
   IF Tier = "quick"
   THEN {"", "/a", "/{x}", "/{n:[0-9]+}", "/{s}.f", "/a/{x}", "/{x}/b", "/a/{t:*}", "/{x}:go"}
   ELSE {"", "/", "/a", "/b/", "/{x}", "/{n:[0-9]+}", "/{c:[A-Z][A-Z]}", "/{s}.f", "/a/{x}", "/{x}/b",
-        "/a/b", "/{x}/{y}", "/a/{t:*}", "/{t:*}", "/a:go", "/{x}:go", "/a/{n:[0-9]{2}}", "a/{x}/"}
+        "/a/b", "/{x}/{y}", "/a/{t:*}", "/{t:*}", "/a:go", "/{x}:go", "/a/{n:[0-9]{2}}", "a/{x}/",
+        "/{k:(cats|dogs)}", "/{n:[0-9]+}/{y}", "/{y}/{n:[0-9]+}"}
 PathRoots ==
   IF Tier = "quick" THEN {"/", "/r", "/{w:[0-9]+}"}
   ELSE {"/", "/r", "/r/", "/r/{w}", "/{w}", "/{w:[0-9]+}"}
@@ -69,6 +70,14 @@ Tables ==
          \* crossing roots of four tokens whose CurlyRouter scores are equal (10*(4+1)+2 = 10*(3+2)+2)
          LET rts == {<<R0("GET", "")>>, <<R0("GET", "/{z}")>>} IN
          {<<Svc("/a/{x}/{y}/d", a), Svc("/{x}/b/c/{y}", b)>> : a \in rts, b \in rts}
+    [] Mode = "regexpos" ->
+         \* the byte-identical regex token at different segment positions; a regex with its own group
+         {<<Svc(root, rs)>> : root \in {"/r", "/{w:(cats|dogs)}"},
+            rs \in RouteSeqs(Routes1({"/{n:[0-9]+}/{y}", "/{y}/{n:[0-9]+}", "/{n:[0-9]+}", "/{k:(cats|dogs)}/{y}"}, {"GET", "DELETE"}), 2)}
+    [] Mode = "media" ->
+         \* a literal and a variable route of one method with different Produces (ranking must not follow Accept)
+         LET ps == {<<JSONM>>, <<XMLM>>, <<XMLM, JSONM>>} IN
+         {<<Svc("/r", <<[R0("GET", "/a") EXCEPT !.prod = p1], [R0("GET", "/{x}") EXCEPT !.prod = p2]>>)>> : p1 \in ps, p2 \in ps}
     [] Mode = "order3" ->
          \* three routes of one service that can all match one URL (ranking beyond the best match)
          LET pool == SetToSeq(Routes1({"/a/b", "/a/{x}", "/{x}/b", "/{x}/{y}"}, {"GET", "PUT"})) IN
@@ -97,7 +106,7 @@ SegValues(p) ==
                                           <<"1" \o SubSeq(p.verb, 2, Len(p.verb))>>, <<"1:x" \o SubSeq(p.verb, 2, Len(p.verb))>>}
     [] p.kind = "var" /\ p.suf # ""   -> {<<"a" \o p.suf>>, <<"a">>, <<p.suf>>, <<"f">>}
     [] p.kind = "var"                 -> IF Tier = "quick" THEN {<<"a">>, <<"1">>} ELSE {<<"a">>, <<"1">>, <<"">>}
-    [] p.kind = "re"                  -> {<<"1">>, <<"a">>, <<"1a">>, <<"AB">>, <<"12">>}
+    [] p.kind = "re"                  -> {<<"1">>, <<"a">>, <<"1a">>, <<"AB">>, <<"12">>, <<"cats">>, <<"xdogs">>}
     [] p.kind = "tail"                -> {<<>>, <<"a">>, <<"a", "b">>}
 
 RECURSIVE Instances(_, _)
@@ -134,7 +143,10 @@ Rq(m, path, ct, acc, clen, clh, conds) ==
   [m |-> m, path |-> path, ct |-> ct, acc |-> acc, clen |-> clen, clh |-> clh, conds |-> conds]
 
 Requests(T) ==
-  IF Mode = "headers"
+  IF Mode = "media"
+  THEN {Rq("GET", p, "", acc, 0, "", <<>>) : p \in {"/r/a", "/r/b"},
+          acc \in {"", JSONM, XMLM, XMLM \o ", " \o JSONM, JSONM \o ";q=0.5, " \o XMLM, "*/*", "text/html"}}
+  ELSE IF Mode = "headers"
   THEN {Rq(m, "/r/a", ct, acc, b[1], b[2], k) :
           m \in {"GET", "POST", "PUT"},
           ct \in {"", JSONM, "text/plain"},
